@@ -31,6 +31,7 @@ def programs(ctx, n, cfgdir):
         out.append(("corpus:" + os.path.basename(f), t))
     shipped = straight.calls_from_config(cfgdir)
     out += union_pair_programs(rng, cfgdir, max(6, n // 20))
+    out += misuse_programs(rng, cfgdir, max(6, n // 20))
     for i in range(n // 4):
         out.append(("grammar%d" % i, progs.gen_program(rng, cfgdir, level=rng.choice([0, 1, 2, 3, 4]))))
     for i in range(n // 4):
@@ -113,6 +114,42 @@ def run_analyze(ctx, n, tag):
     return failures
 
 
+def constructors(cfgdir):
+    """configured classes of frame Builtin with a class method `new`: (class, number of required parameters, number of all parameters)"""
+    import glob
+    out = []
+    for f in sorted(glob.glob(os.path.join(cfgdir, "*.json"))):
+        try:
+            d = json.load(open(f))
+        except Exception:
+            continue
+        if d.get("frame") != "Builtin" or not re.match(r"^[A-Z][A-Za-z]*[a-z][A-Za-z]*$|^GPIO$", d.get("class") or ""):
+            continue
+        for m in d.get("class_methods") or []:
+            if m["name"] == "new":
+                args = m.get("arguments") or []
+                ts = [a.get("type") if isinstance(a.get("type"), list) else [a.get("type")] for a in args]
+                req = len([t for t, a in zip(ts, args) if not a.get("is_default") and not any(str(x).startswith(("Default", "Optional", "?")) for x in t)])
+                out.append((d["class"], req, len(args)))
+    return out
+
+
+def misuse_programs(rng, cfgdir, n):
+    """programs whose calls of configured constructors and methods FAIL their argument check (too many / too few arguments): the error
+    path of a call must leave the declaration as it was"""
+    cs = constructors(cfgdir)
+    out = []
+    for i in range(n):
+        lines = []
+        for cls, req, tot in rng.sample(cs, min(len(cs), rng.randint(1, 3))):
+            k = rng.choice([tot + 1, tot + 2] + ([req - 1] if req > 0 else []))
+            lines.append("mq%d = %s.new(%s)" % (len(lines), cls, ", ".join(["1"] * k)))
+        lines += rng.sample(["'s'.upcase(1, 2)", "[1].push", "1.times(1, 2, 3)", "{a: 1}.fetch", "[1, 2].first(1, 2, 3)", "1.5.round(1, 2, 3)", ":a.to_s(1)"], 3)
+        rng.shuffle(lines)
+        out.append(("misuse%d" % i, "\n".join(lines) + "\n"))
+    return out
+
+
 def probe_text(cfgdir):
     """one dbtp per configured method of the literal classes, on a fresh literal receiver with sample arguments, plus the operators"""
     shipped = straight.calls_from_config(cfgdir)
@@ -125,6 +162,10 @@ def probe_text(cfgdir):
         lines.append("zq = %s %s %s" % (a, op, b))
         lines.append("dbtp zq")
     lines.append("wq = 3\nzq2 = 2 * wq\ndbtp zq2")
+    for cls, req, tot in constructors(cfgdir):
+        for k in sorted(set([req, tot])):
+            lines.append("cq = %s.new(%s)" % (cls, ", ".join(["1"] * k)))       # a valid constructor call: no diagnostic, whatever was analysed before
+            lines.append("dbtp cq")
     for a, op in [("2", "*"), ("2", "+"), ("2.5", "*"), ("'a'", "+"), ("'a'", "*")]:
         lines.append("zq3 = %s %s undefq" % (a, op))       # an argument of unknown type: the whole declared return type shows
         lines.append("dbtp zq3")
@@ -153,7 +194,7 @@ def run_probes(ctx, n, tag):
     failures = []
     used = 0
     for (name, t), (rc2, so, se2) in zip(ps, common.pmap(one, list(enumerate(ps)))):
-        if rc2 != 0 or so.strip().endswith("timeout") or "syntax error" in so:
+        if rc2 != 0 or "timeout" in so.split("\n") or "syntax error" in so:
             continue
         off = (t if t.endswith("\n") else t + "\n").count("\n")
         got = [(r - off, x) for p, r, x in meta.parse(so) if r is not None and r > off]
